@@ -29,7 +29,7 @@ type FetchOptions struct {
 }
 
 func toMultihash(ctx context.Context, services coreiface.CoreAPI, log *IPFSLog) (cid.Cid, error) {
-	if log.heads.Len() == 0 {
+	if log.RawHeads().Len() == 0 {
 		return cid.Undef, errmsg.ErrEmptyLogSerialization
 	}
 
